@@ -1506,6 +1506,10 @@ class _FuncEval:
         if n is None:
             return ("const", None)
         if isinstance(n, ast.Constant):
+            if type(n.value) is float:
+                # 1000.0 == 1000 in Python, and so would the terms be: a float literal is kept distinguishable, because int / int,
+                # int / float and float / float round differently (and a pattern written with an int literal means the int)
+                return ("const", n.value, "float")
             return ("const", n.value)
         if isinstance(n, ast.Name):
             return self.name(n.id, st)
